@@ -48,6 +48,8 @@ class Template:
             if isinstance(t, (list, tuple)) and t and isinstance(t[0], (list, tuple)): return '[' + ', '.join(show(x) for x in t) + ']'
             if isinstance(t, (list, tuple)) and len(t) == 2 and isinstance(t[0], str) and t[0].startswith('?'): return '%s == %s' % (t[0], show(t[1]))
             if t[0] == 'rule': return '%s: %s => %s' % (t[1], show(t[2]), show(t[3]))
+            if t[0] == 'rule_if': return '%s: %s => %s if %s($%s)' % (t[1], show(t[2]), show(t[3]), t[4], 'abcdefghijklmnop'[t[5]])
+            if t[0] == 'subst': return '%s[%s := %s]' % (show(t[1]), show(t[2]), show(t[3]))
             sig = O.SIG[t[0]]
             return '(' + t[0] + ''.join(' $' + 'abcdefghijklmnop'[a] if k in 'sb' else ' ' + show(a) for k, a in zip(sig, t[1:])) + ')'
         return '; '.join(op[0] + ' ' + ' '.join(show(x) if isinstance(x, (tuple, list, str)) else str(x) for x in op[1:]) for op in self.ops)
